@@ -6,7 +6,7 @@ import BigtoolsModel.WfIndex
 import BigtoolsModel.CheckedFile
 import BigtoolsModel.BigEndian
 import BigtoolsModel.NonLeafWitness
-import BigtoolsModel.AtomsGen
+import BigtoolsModel.AtomsStep
 /-! # C10 — any well-formed BBI file is read correctly, whoever wrote it
 
 Property theorems (statements copied from the lemma modules, proofs by those lemmas). -/
